@@ -57,6 +57,109 @@ def cstr(v):
 
 
 # ------------------------------------------------------------------------------------------------------------
+# spelling of a command-line source.  Builtin-options.md, "Universal options": "All these can be set by passing
+# -Doption=value to meson ... Some options can also be set by --option=value, or --option value -- a list is shown by
+# running meson setup --help.  For legacy reasons --warnlevel is the cli argument for the warning_level option."
+# (--help spells an underscore as a hyphen and shows the boolean options as switches without a value.)
+# styles: 'D' -Dname=value | 'eq' --name=value | 'sp' --name value | 'bare' --name (switch of a boolean option: true)
+FLAG_STYLES = ('eq', 'sp')
+
+
+def flag_of(name):
+    if ':' in name:
+        return None             # an option of a subproject can only be addressed with -Dsubp:name=value
+    if name == 'warning_level':
+        return '--warnlevel'
+    return '--' + name.replace('_', '-')
+
+
+class CmdlineRejected(Exception):
+    pass
+
+
+class _Parser(argparse.ArgumentParser):
+    def error(self, message):       # argparse would print the usage and exit(2): the command is refused
+        raise CmdlineRejected(message)
+
+
+_PARSERS = {}
+
+
+def cli_parser(cmd):
+    """The argument parser of `meson setup` / `meson configure`, built by the command's own add_arguments (once per process)."""
+    if cmd not in _PARSERS:
+        parser = _Parser()
+        if cmd == 'setup':
+            from mesonbuild import msetup
+            msetup.add_arguments(parser)
+        else:
+            from mesonbuild import mconf
+            mconf.add_arguments(parser)
+        _PARSERS[cmd] = parser
+    return _PARSERS[cmd]
+
+
+def cli_parse(cmd, argv):
+    """parse_args of a fresh process: the mutable defaults ({} of -D, the two key sets) belong to the parser object and the
+    actions fill them in place, so a parser that is used again gets a new namespace holding new ones."""
+    ns = argparse.Namespace(cmd_line_options={}, builtin_keys=set(), d_keys=set())
+    return cli_parser(cmd).parse_args(argv, namespace=ns)
+
+
+_CLI_FLAGS = {}
+
+
+def cli_flags(cmd='setup'):
+    """What `meson <cmd> --help` lists: long flag -> 0 for a switch, 1 for a flag that takes a value."""
+    if cmd not in _CLI_FLAGS:
+        _CLI_FLAGS[cmd] = {s: a.nargs for s, a in cli_parser(cmd)._option_string_actions.items() if s.startswith('--')}
+    return _CLI_FLAGS[cmd]
+
+
+def flag_style(name, value, style, cmd='setup'):
+    """The style in which `name=value` can be written as a long flag of `meson <cmd>`, None if it cannot."""
+    fl = flag_of(name)
+    if style == 'D' or fl is None or fl not in cli_flags(cmd):
+        return None
+    if cli_flags(cmd)[fl] == 0:
+        return 'bare' if value == 'true' else None      # a switch can only say true
+    return style
+
+
+def set_spelling(scn, style):
+    """Spell every command-line entry of the scenario that has a long flag in the given style; -> number of entries spelled so."""
+    n = 0
+    for k, v in scn['C']:
+        st = flag_style(k, cstr(v), style)
+        if st:
+            scn['cspell'][k] = st
+            n += 1
+    return n
+
+
+def c_entries(scn):
+    sp = scn.get('cspell') or {}
+    return [[k, v, sp.get(k, 'D')] for k, v in scn['C']]
+
+
+def c_argv(entries):
+    out = []
+    for k, v, st in entries:
+        v = cstr(v)         # (invalid-value cases carry typed values: they are written as -D would write them)
+        if st == 'D':
+            out.append('-D%s=%s' % (k, v))
+        elif st == 'eq':
+            out.append('%s=%s' % (flag_of(k), v))
+        elif st == 'sp':
+            out += [flag_of(k), v]
+        elif st == 'bare':
+            out.append(flag_of(k))
+        else:
+            raise InternalError('bad spelling style %r' % (st,))
+    return out
+
+
+# ------------------------------------------------------------------------------------------------------------
 # option kinds.  vals: three (two for booleans) valid values; for builtins vals[0] is the documented default.
 # implicit: documented default when option() has no `value:` (Build-options.md); None = docs silent.
 PK = {
@@ -157,7 +260,7 @@ def decl_text(decls):
 # scenarios (plain JSON-able dicts, consumed by both tiers)
 def new_scn(cross=False, has_sub=False):
     return {'cross': cross, 'has_sub': has_sub, 'top_decl': [], 'sub_decl': [], 'P': [], 'S': [], 'SC': [], 'M': [], 'N': [],
-            'C': [], 'dict_form': False, 'late': [], 'conf': [], 'obs': [], 'langs': False}
+            'C': [], 'cspell': {}, 'dict_form': False, 'late': [], 'conf': [], 'confcmd': [], 'obs': [], 'langs': False}
 
 
 def put(scn, sid, name, value, mstr=False):
@@ -269,11 +372,12 @@ def a_machine_options(store, scn):
 
 
 def a_cmdline(scn, real_argparse=False):
-    if real_argparse:
-        parser = argparse.ArgumentParser()
-        cmdline.register_builtin_arguments(parser)
-        ns = parser.parse_args(['-D%s=%s' % (k, v) for k, v in scn['C']])
-        ns.cmd_line_options = dict(ns.cmd_line_options)
+    if real_argparse or scn.get('cspell'):
+        # msetup.run: the command's own parser, then parse_cmd_line_options
+        try:
+            ns = cli_parse('setup', c_argv(c_entries(scn)))
+        except CmdlineRejected as e:
+            raise MesonException('command line refused: %s' % e)
     else:
         d = {}
         for k, v in scn['C']:
@@ -414,6 +518,24 @@ def _run_a(scn, real_argparse):
             for kk, vv in after.items():
                 res['obs']['conf%d:%s' % (i, kk)] = vv
             res['obs']['conf%d:unchanged' % i] = (before == after)
+            res['bad'] += a_scan(store)
+        for i, cmd in enumerate(scn.get('confcmd') or []):
+            # `meson configure <args>`: mconf.run = the command's parser, parse_cmd_line_options, CoreData.set_from_configure_command
+            stage = 'cc%d' % i
+            before = {}
+            a_observe(store, scn, 'top', before)
+            try:
+                ns = cli_parse('configure', c_argv(cmd) + ['bld'])
+                cmdline.parse_cmd_line_options(ns)
+                store.set_from_configure_command(ns.cmd_line_options)
+                res['obs']['cc%d:ok' % i] = True
+            except (MesonException, CmdlineRejected):
+                res['obs']['cc%d:ok' % i] = False
+            after = {}
+            a_observe(store, scn, 'top', after)
+            for kk, vv in after.items():
+                res['obs']['cc%d:%s' % (i, kk)] = vv
+            res['obs']['cc%d:unchanged' % i] = (before == after)
             res['bad'] += a_scan(store)
     except MesonException as e:
         res['rejected'] = [stage, str(e)[:200]]
@@ -801,6 +923,141 @@ def fam_buildtype_sub(cross=False, max_sources=2):
 
 
 # ------------------------------------------------------------------------------------------------------------
+# the spelling of the command-line source as a dimension of the families above
+def fam_flagged(base, style, **kwargs):
+    """The cases of family `base` whose command line sets at least one option that has a long flag, with every such entry
+    written as --name=value ('eq') / --name value ('sp') / --name (boolean switch) instead of -Dname=value.  Expectations are
+    those of the base family: the spelling of a source does not enter the documented precedence.  Entries that cannot be
+    written as a flag (subp:name, project / compiler / base options, false for a switch) stay -D."""
+    for c in globals()[base](**kwargs):
+        if 'skip' in c:
+            continue
+        n = set_spelling(c['scn'], style)
+        if not n:
+            continue
+        c['fam'] += '-flag'
+        c['meta']['cstyle'] = style
+        c['meta']['flag_spelled'] = n
+        yield c
+
+
+def bt_spellings(state, with_all_D):
+    """Every way of spelling the listed options: buildtype / optimization as -D, --name=value, --name value; debug as -D or
+    the --debug switch."""
+    per = [('D', 'bare') if nm == 'debug' else ('D',) + FLAG_STYLES for nm in state]
+    for styles in itertools.product(*per):
+        if with_all_D or any(st != 'D' for st in styles):
+            yield list(styles)
+
+
+def bt_class(names, styles, vals):
+    """Anti-vacuity classifier: the command gives buildtype and an explicit debug/optimization that differs from what the
+    buildtype implies (so a buildtype that wins is visible) -> '<spelling of buildtype>-<its position>'."""
+    if 'buildtype' not in names or len(names) < 2:
+        return None
+    d, o = BUILDTYPE_TABLE[vals['buildtype']]
+    if not (('debug' in vals and vals['debug'] != d) or ('optimization' in vals and vals['optimization'] != o)):
+        return None
+    return '%s-%s' % ('D' if styles[names.index('buildtype')] == 'D' else 'flag', 'last' if names[-1] == 'buildtype' else 'first')
+
+
+def fam_buildtype_top_flag(pm_max=1, cross=False):
+    """buildtype / debug / optimization on the `meson setup` command line: every subset, both listing orders, every spelling of
+    every option (all -D is fam_buildtype_top), against every state of default_options and machine file with <= pm_max entries."""
+    pm_states = [st for st in BT_STATES if len(st) <= pm_max]
+    for sc in BT_STATES[1:]:
+        for styles in bt_spellings(sc, False):
+            for sp, sm in itertools.product(pm_states, repeat=2):
+                for a in range(3):
+                    scn = new_scn(cross, False)
+                    per = {}
+                    for sid, st in (('P', sp), ('M', sm), ('C', sc)):
+                        for nm in st:
+                            v = bt_value(nm, sid, a)
+                            if sid == 'C' and nm == 'debug' and styles[sc.index(nm)] == 'bare':
+                                v = True
+                            put(scn, sid, nm, v)
+                            per.setdefault(sid, {})[nm] = v
+                    for nm, st in zip(sc, styles):
+                        if st != 'D':
+                            scn['cspell'][nm] = st
+                    scn['obs'] = [['top', 'buildtype'], ['top', 'debug'], ['top', 'optimization']]
+                    (eb, ed, eo), weak = bt_expect(['P', 'M', 'C'], per)
+                    exp = {'top:buildtype': eb, 'top:debug': ed, 'top:optimization': eo}
+                    late_bt = [s for s, st in (('P', sp), ('M', sm), ('C', sc)) if len(st) > 1 and st[-1] == 'buildtype']
+                    yield {'fam': 'buildtype-top-flag', 'scn': scn, 'exp': exp, 'reject': 'mustnot', 'weak': weak,
+                           'meta': {'states': [sp, sm, sc], 'styles': styles, 'a': a, 'bt_listed_last': late_bt,
+                                    'btclass': bt_class(sc, styles, per['C']), 'nsrc': sum(1 for x in (sp, sm, sc) if x)}}
+
+
+CONF_SETUP_STATES = [[], ['optimization'], ['debug'], ['buildtype']]
+
+
+def fam_buildtype_configure(setup_states=None, cross=False):
+    """`meson configure` giving buildtype / debug / optimization: every subset, both listing orders, every spelling, after a
+    `meson setup` whose command line gave none or one of them.  The configure command is one more command-line source on top
+    of the earlier one (Builtin-options.md: "They can also be edited after setup using meson configure -Doption=value")."""
+    for s0 in (CONF_SETUP_STATES if setup_states is None else setup_states):
+        for sk in BT_STATES[1:]:
+            for styles in bt_spellings(sk, True):
+                for a in range(3):
+                    scn = new_scn(cross, False)
+                    per = {}
+                    for nm in s0:
+                        v = bt_value(nm, 'C', a)
+                        put(scn, 'C', nm, v)
+                        per.setdefault('C', {})[nm] = v
+                    cmd = []
+                    for nm, st in zip(sk, styles):
+                        v = True if (nm == 'debug' and st == 'bare') else bt_value(nm, 'PS', a)   # the values of another source
+                        cmd.append([nm, cstr(v), st])
+                        per.setdefault('K', {})[nm] = v
+                    scn['confcmd'] = [cmd]
+                    scn['obs'] = [['top', 'buildtype'], ['top', 'debug'], ['top', 'optimization']]
+                    (eb, ed, eo), weak = bt_expect(['C', 'K'], per)
+                    exp = {'cc0:ok': ['eq', True], 'cc0:top:buildtype': eb, 'cc0:top:debug': ed, 'cc0:top:optimization': eo}
+                    (sb, sd, so), _ = bt_expect(['C'], per)
+                    exp.update({'top:buildtype': sb, 'top:debug': sd, 'top:optimization': so})
+                    yield {'fam': 'buildtype-configure', 'scn': scn, 'exp': exp, 'reject': 'mustnot', 'weak': weak,
+                           'meta': {'setup': s0, 'configure': sk, 'styles': styles, 'a': a, 'btclass': bt_class(sk, styles, per['K']),
+                                    'nsrc': 1 + (1 if s0 else 0)}}
+
+
+CONF_FLAG_NAMES = ['warning_level', 'werror', 'unity_size', 'default_library', 'optimization', 'wrap_mode', 'python.bytecompile',
+                   'force_fallback_for', 'bindir']
+
+
+def fam_conf_flag(bases=None, cross=False):
+    """`meson configure` setting one built-in option of the build, in every spelling, valid and invalid values, after a setup in
+    which none / one of the documented sources set it: the command's value is the effective one, an invalid one is refused and
+    changes nothing."""
+    for name in CONF_FLAG_NAMES:
+        k = ALLK[name]
+        vals = distinct_vals(k)
+        invs = [iv for _, iv, typed in INVALID.get(name, []) if not typed]
+        for base in ([[], ['P'], ['M'], ['C']] if bases is None else bases):
+            for v, valid in [(cstr(vals[-1]), True)] + [(iv, False) for iv in invs]:
+                for style in ('D',) + FLAG_STYLES:
+                    st = 'D' if style == 'D' else flag_style(name, v, style, 'configure')
+                    if st is None or (st == 'bare' and style != FLAG_STYLES[0]):
+                        continue        # cannot be said with a flag / the switch has one spelling
+                    scn = new_scn(cross, False)
+                    present = {}
+                    for s in base:
+                        put(scn, s, name, vals[1 % len(vals)])
+                        present[s] = vals[1 % len(vals)]
+                    scn['confcmd'] = [[[name, v, st]]]
+                    scn['obs'] = [['top', name]]
+                    exp = {'top:' + name: ['eq', ref_top(present, vals[0])]}
+                    if valid:
+                        exp.update({'cc0:ok': ['eq', True], 'cc0:top:' + name: ['eq', vals[-1]]})
+                    else:
+                        exp.update({'cc0:ok': ['eq', False], 'cc0:unchanged': ['eq', True]})
+                    yield {'fam': 'configure-flag', 'scn': scn, 'exp': exp, 'reject': 'mustnot',
+                           'meta': {'name': name, 'base': base, 'value': v, 'valid': valid, 'cstyle': st, 'nsrc': len(base) + 1}}
+
+
+# ------------------------------------------------------------------------------------------------------------
 # prefix-dependent directory defaults
 PREFIXES = ['/usr', '/usr/local', '/opt/px']
 DIRVALS = ['dA', 'dB', '/abs/dC']
@@ -1041,17 +1298,25 @@ def classify(case, okey, e, got):
         idx = 0 if name == 'debug' else 1
         bts = [v for k, v in scn['P'] + scn['S'] + scn['SC'] + scn['C'] if k.split(':')[-1] == 'buildtype']
         bts += [v for sec, k, v in scn['M'] if k == 'buildtype']
+        bts += [x[1] for cmd in (scn.get('confcmd') or []) for x in cmd if x[0] == 'buildtype']
         implied = [BUILDTYPE_TABLE[b][idx] for b in bts if b in BUILDTYPE_TABLE]
         if got in implied:
             if where == 'sub':
                 return 'C07:buildtype:subproject-explicit-debug-or-optimization-overwritten-by-buildtype'
+            cc = (scn.get('confcmd') or [None])[0]
+            if parts[0].startswith('cc') and cc and {'buildtype', name} <= {x[0] for x in cc} and \
+                    got == BUILDTYPE_TABLE.get(dict((x[0], x[1]) for x in cc)['buildtype'], (None, None))[idx]:
+                return 'C07:buildtype:configure-command-explicit-value-overwritten-by-buildtype'
             for s in ('C', 'M', 'P'):
                 lst = [k for k, _ in scn[s]] if s != 'M' else [k for sec, k, _ in scn['M'] if ':' not in sec]
                 if name in lst:
                     if _listed_before_buildtype(scn, s, name) and s in ('P', 'M'):
                         return 'C07:buildtype:explicit-value-listed-before-buildtype-in-' + ('default_options' if s == 'P' else 'machine-file')
+                    if s == 'C' and 'buildtype' in lst and not parts[0].startswith('cc') and \
+                            got == BUILDTYPE_TABLE.get(dict(scn['C'])['buildtype'], (None, None))[idx]:
+                        return 'C07:buildtype:command-line-explicit-value-overwritten-by-buildtype'
                     break
-    if fam == 'prefix-subdecoy' and where == 'top2' and name in SPECIAL_DIRS and \
+    if fam in ('prefix-subdecoy', 'prefix-subdecoy-flag') and where == 'top2' and name in SPECIAL_DIRS and \
             got == ref_dir_default(name, case['meta']['decoy_prefix']):
         srcs = ''.join(case['meta'].get('prefix_sources', []))
         # which of the documented sources gave the build's prefix, and where the subproject's prefix default came from
@@ -1113,7 +1378,7 @@ def judge(case, res, tier):
     # every observed effective value is a valid value of the option that was asked for
     for okey, got in res['obs'].items():
         parts = okey.split(':')
-        if parts[0].startswith('conf') and len(parts) < 3:
+        if parts[0].startswith(('conf', 'cc')) and len(parts) < 3:
             continue
         k = kind_of(parts[-1])
         if k is not None and got != '<<missing>>' and not ref_valid_kind(k, got) and okey not in case['exp']:
@@ -1145,10 +1410,11 @@ def merge_cases(cases, fam):
         s = c['scn']
         if out is None:
             out = {'fam': fam, 'scn': new_scn(s['cross'], s['has_sub']), 'exp': {}, 'reject': 'mustnot', 'weak': False,
-                   'meta': {k: v for k, v in c['meta'].items() if k in ('subset', 'a', 'winner', 'nsrc')}}
+                   'meta': {k: v for k, v in c['meta'].items() if k in ('subset', 'a', 'winner', 'nsrc', 'cstyle')}}
             out['scn']['dict_form'] = s['dict_form']
             out['meta']['merged'] = 0
         o = out['scn']
+        o['cspell'].update(s.get('cspell') or {})
         for f in ('top_decl', 'sub_decl', 'P', 'S', 'SC', 'M', 'N', 'C', 'obs'):
             o[f] += [x for x in s[f] if x not in o[f] or f not in ('obs', 'top_decl', 'sub_decl')]
         for n in s['late']:
@@ -1210,7 +1476,7 @@ def b_tree(scn):
     elif scn['M']:
         files['native.ini'] = machine_text(scn['M'])
         argv += ['--native-file', 'native.ini']
-    argv += ['-D%s=%s' % (k, v) for k, v in scn['C']]
+    argv += c_argv(c_entries(scn))
     return files, argv
 
 
@@ -1286,6 +1552,28 @@ def run_b(scn, keep=False, cold=False):
         res['rejected'] = [stage, (m.group(1) if m else r.out[-300:])[:200]]
     else:
         res['obs'] = raw
+        for i, cmd in enumerate(scn.get('confcmd') or []):
+            # `meson configure bld <args>`, observed in what the build directory then says (intro-buildoptions.json)
+            def intro():
+                try:
+                    with open(os.path.join(root, 'bld', 'meson-info', 'intro-buildoptions.json'), encoding='utf-8') as f:
+                        d = {o['name']: o['value'] for o in json.load(f)}
+                except (OSError, ValueError) as e:
+                    return {'top:<<intro unreadable>>': str(e)}
+                return {'top:' + n: d.get(n, '<<missing>>') for w, n in scn['obs'] if w == 'top'}
+            before = intro()
+            cargv = ['configure', 'bld'] + c_argv(cmd)
+            rc = mp.cold_meson(cargv, root, mp.base_env(), timeout=300) if cold else mp.run_meson(cargv, root, timeout=120)
+            if rc.unhandled:
+                res['crash'] = ['cc%d' % i, rc.out[-700:]]
+                break
+            after = intro()
+            res['obs']['cc%d:ok' % i] = rc.rc == 0
+            for kk, vv in after.items():
+                res['obs']['cc%d:%s' % (i, kk)] = vv
+            res['obs']['cc%d:unchanged' % i] = (before == after)
+            if keep:
+                res.setdefault('conf_out', []).append([cargv, rc.out[-500:]])
     if not keep:
         shutil.rmtree(root, ignore_errors=True)
     else:
@@ -1375,6 +1663,25 @@ def tier_a_tasks(ck):
         specs.append(('fam_prefix', dict(cross=cross)))
         specs.append(('fam_invalid', dict(cross=cross)))
         specs.append(('fam_conf', dict(cross=cross)))
+    # ---- the spelling of the command-line source (-Dname=value | --name=value | --name value | --name)
+    flaggable = [n for n in BK if flag_of(n) in cli_flags('setup')]
+    persub_f = [n for n in flaggable if BK[n]['persub']]
+    for cross in (False, True):
+        for style in FLAG_STYLES:
+            form = dict(dict_form=cross, mstr=cross) if not ck.thorough else dict(dict_form=(style == 'sp'), mstr=not cross)
+            specs.append(('fam_flagged', dict(base='fam_top', style=style, names=flaggable, cross=cross, decoy=cross, **form)))
+            specs.append(('fam_flagged', dict(base='fam_prefix', style=style, cross=cross)))
+            specs.append(('fam_flagged', dict(base='fam_invalid', style=style, cross=cross)))
+            if ck.thorough or (style == 'sp') == cross:
+                specs.append(('fam_flagged', dict(base='fam_sub', style=style, mode='bsub', names=persub_f, cross=cross, **form)))
+    for style in FLAG_STYLES:
+        specs.append(('fam_flagged', dict(base='fam_permachine', style=style, names=['pkg_config_path', 'cmake_prefix_path'])))
+    specs.append(('fam_buildtype_top_flag', dict(pm_max=3 if ck.thorough else 1)))
+    if ck.thorough:
+        specs.append(('fam_buildtype_top_flag', dict(pm_max=1, cross=True)))
+    for cross in (False, True):
+        specs.append(('fam_buildtype_configure', dict(cross=cross)))
+        specs.append(('fam_conf_flag', dict(cross=cross)))
     return specs
 
 
@@ -1389,9 +1696,24 @@ def fam_buildtype_top_argparse():
 NSHARD = 16
 
 
+def spelling_counters(case):
+    """Coverage counters of the spelling dimension: which styles the executed command lines used, and the buildtype class."""
+    scn = case['scn']
+    out = set()
+    for st in (scn.get('cspell') or {}).values():
+        out.add('setup:' + st)
+    for cmd in scn.get('confcmd') or []:
+        for x in cmd:
+            out.add('configure:' + x[2])
+    if case['meta'].get('btclass'):
+        out.add('%s:buildtype-%s-with-differing-explicit-value' % ('configure' if scn.get('confcmd') else 'setup', case['meta']['btclass']))
+    return sorted(out)
+
+
 def work_a_task(task):
     (gname, kwargs), shard = task
-    agg = {'n': 0, 'skipped_cases': 0, 'classes': set(), 'fams': {}, 'tot': {}, 'multi': 0, 'late_rej': 0, 'problems': [], 'sample': None}
+    agg = {'n': 0, 'skipped_cases': 0, 'classes': set(), 'fams': {}, 'tot': {}, 'multi': 0, 'late_rej': 0, 'problems': [], 'sample': None,
+           'spell': {}}
     perkey = {}
     cases = list(globals()[gname](**kwargs))
     mine = [c for i, c in enumerate(cases) if i % NSHARD == shard]
@@ -1411,6 +1733,8 @@ def work_a_task(task):
             agg['multi'] += 1
         if rstage in ('top-late', 'sub-late'):
             agg['late_rej'] += 1
+        for sk in spelling_counters(case):
+            agg['spell'][sk] = agg['spell'].get(sk, 0) + 1
         if agg['sample'] is None and case['meta'].get('nsrc', 0) >= 3:
             agg['sample'] = {'scn': case['scn'], 'expected': case['exp']}
         if probs:
@@ -1495,6 +1819,36 @@ def tier_b_cases(ck):
     if not ck.thorough:
         iv = [c for c in iv if c['meta']['other'] is None]
     out += iv
+    # ---- the spelling of the command-line source
+    flaggable = [n for n in BK if flag_of(n) in cli_flags('setup')]
+    alt = lambda c: c['meta']['cstyle'] == FLAG_STYLES[c['meta']['nsrc'] % 2]     # quick: the two styles alternate over the cases
+    for cross, style in ([(False, 'eq'), (True, 'sp')] if not ck.thorough else [(c, st) for c in (False, True) for st in FLAG_STYLES]):
+        cs = list(fam_flagged('fam_top', style, names=flaggable, cross=cross, dict_form=cross, mstr=cross, decoy=cross))
+        out += group_merge(cs, 'top-flag', lambda c: (tuple(c['meta']['subset']), c['meta']['a']))
+    for base, kw in (('fam_permachine', dict(names=['pkg_config_path', 'cmake_prefix_path'])), ('fam_prefix', {})):
+        cs = [c for style in FLAG_STYLES for c in fam_flagged(base, style, **kw)]
+        if not ck.thorough:
+            cs = [c for c in cs if c['meta'].get('a', seed % 3) == seed % 3 and alt(c)]
+        if base == 'fam_permachine':
+            cs = group_merge(cs, 'permachine-flag', lambda c: (tuple(c['meta']['subset']), c['meta']['a'], c['meta']['cstyle']))
+        out += cs
+    iv = [c for style in FLAG_STYLES for c in fam_flagged('fam_invalid', style)]
+    if not ck.thorough:
+        iv = [c for c in iv if c['meta']['other'] is None]
+    out += iv
+    if ck.thorough:
+        cs = [c for c in fam_flagged('fam_sub', 'eq', mode='bsub', names=[n for n in flaggable if BK[n]['persub']], cross=False,
+                                     dict_form=False, mstr=False) if c['meta']['a'] == seed % 3]
+        out += group_merge(cs, 'sub-flag', lambda c: (tuple(c['meta']['subset']), c['meta']['a']))
+    bt = list(fam_buildtype_top_flag(pm_max=1 if ck.thorough else 0))
+    if not ck.thorough:
+        bt = [c for c in bt if c['meta']['a'] == seed % 3]
+    out += bt
+    bc = list(fam_buildtype_configure(setup_states=None if ck.thorough else [[]]))
+    if not ck.thorough:
+        bc = [c for c in bc if c['meta']['a'] == seed % 3]
+    out += bc
+    out += list(fam_conf_flag(bases=None if ck.thorough else [['C']]))
     for c in out:
         c['compare_a'] = not c['scn']['langs']
     return out
@@ -1716,6 +2070,7 @@ def main():
         fams = {}
         multi = late_rej = stores = 0
         sample = None
+        spell = {}
         for (sp, sh), agg in zip(tasks, pmap(work_a_task, tasks)):
             stores += agg['n']
             skipped_cases += agg['skipped_cases']
@@ -1723,6 +2078,8 @@ def main():
             multi += agg['multi']
             late_rej += agg['late_rej']
             sample = sample or agg['sample']
+            for k, v in agg['spell'].items():
+                spell[k] = spell.get(k, 0) + v
             for k, v in agg['tot'].items():
                 tot[k] += v
             for fn, fv in agg['fams'].items():
@@ -1740,6 +2097,18 @@ def main():
         evaluations += stores
         ck.part('tierA', stores=stores, families=fams, cases_with_3_or_more_competing_sources=multi,
                 invalid_pending_values_rejected_when_option_appears=late_rej)
+        flag_fams = {fn: fv['cases'] for fn, fv in fams.items() if fn.endswith('-flag') or fn == 'buildtype-configure'}
+        ck.part('tierA_command_line_spelling', families=flag_fams, cases_by_style_and_class=dict(sorted(spell.items())),
+                long_flags_of_setup=len(cli_flags('setup')), long_flags_of_configure=len(cli_flags('configure')))
+        ck.require(all(flag_of(n) in cli_flags('setup') and flag_of(n) in cli_flags('configure') for n in list(BK) + sorted(BUILTIN_EXTRA)),
+                   'a built-in option of the model has no long flag in `meson setup --help`: flag_of() is wrong')
+        for need in ('setup:eq', 'setup:sp', 'setup:bare', 'configure:D', 'configure:eq', 'configure:sp', 'configure:bare',
+                     'setup:buildtype-flag-last-with-differing-explicit-value', 'setup:buildtype-flag-first-with-differing-explicit-value',
+                     'configure:buildtype-flag-last-with-differing-explicit-value', 'configure:buildtype-D-last-with-differing-explicit-value'):
+            ck.require(spell.get(need, 0) > 0, 'spelling dimension: no tier A case of class ' + need)
+        for fn in ('top-flag', 'sub-bsub-flag', 'permachine-flag', 'prefix-flag', 'invalid-top-flag', 'buildtype-top-flag',
+                   'buildtype-configure', 'configure-flag'):
+            ck.require(flag_fams.get(fn, 0) > 0, 'spelling dimension: family %s is empty' % fn)
         ck.require(multi > 1000, 'too few multi-source cases in tier A')
         ck.require(late_rej > 0, 'no pending (late) invalid value was exercised')
         ck.require(tot['rejected_invalid'] > 100 and tot['weak'] > 0 and tot['strong'] > 10000, 'tier A comparison counters')
@@ -1773,6 +2142,18 @@ def main():
             cold_ok += 1
         ck.part('tierB', setups=len(cases), families=fams, tierA_same_observation=agree, tierA_differs=disagree,
                 cold_revalidated=cold_ok)
+        spell = {}
+        for case in cases:
+            for sk in spelling_counters(case):
+                spell[sk] = spell.get(sk, 0) + 1
+        flag_fams = {fn: fv['setups'] for fn, fv in fams.items() if fn.endswith('-flag') or fn == 'buildtype-configure'}
+        ck.part('tierB_command_line_spelling', families=flag_fams, cases_by_style_and_class=dict(sorted(spell.items())),
+                meson_configure_runs=sum(len(c['scn'].get('confcmd') or []) for c in cases))
+        for need in ('setup:eq', 'setup:sp', 'setup:bare', 'configure:D', 'configure:eq', 'configure:sp', 'configure:bare',
+                     'setup:buildtype-flag-last-with-differing-explicit-value', 'configure:buildtype-flag-last-with-differing-explicit-value'):
+            ck.require(spell.get(need, 0) > 0, 'spelling dimension: no tier B case of class ' + need)
+        for fn in ('top-flag', 'permachine-flag', 'prefix-flag', 'invalid-top-flag', 'buildtype-top-flag', 'buildtype-configure', 'configure-flag'):
+            ck.require(flag_fams.get(fn, 0) > 0, 'spelling dimension: tier B family %s is empty' % fn)
         ck.require(len(cases) > 500, 'too few tier B setups')
         ck.require(agree > 0, 'tier A / tier B cross-validation never ran')
         files, argv = b_tree(cases[len(cases) // 2]['scn'])
@@ -1809,6 +2190,8 @@ def main():
                 nbad += 1
                 ck.violation(key, what, {'tier': 'P', 'case': {'id': cid}})
         ck.part('pin', cases=len(pc), violating=nbad)
+    if os.environ.get('C07_SHOW_PARTS'):
+        print(json.dumps({k: v for k, v in ck.parts.items() if 'spelling' in k}, indent=1, sort_keys=True))
     ck.assume('reference order transcribed from Builtin-options.md ("The value is overridden in this order"), Machine-files.md '
               '("Command line > Machine file > Build system definitions"), Build-options.md (yield, types), project/subproject yaml docs')
     ck.assume('non-yielding subproject project option: unprefixed opt=value addresses the parent\'s option of that name, never the subproject\'s')
